@@ -149,6 +149,9 @@ def instantiate(it, cls: ClassVal, args, kwargs):
                     return m
             it.throw("ValueError", f"{v!r} is not a valid {cls.name}")
         raise Unsupported("enum call")
+    from .astmodel import is_ast_class, instantiate_ast
+    if is_ast_class(cls) and cls.lookup("__init__")[0] is None:
+        return instantiate_ast(it, cls, args, kwargs)
     newf, _ = cls.lookup("__new__")
     if newf is not None:
         raise Unsupported(f"class {cls.name} defines __new__")
